@@ -108,6 +108,8 @@ Proof. split; vm_compute; reflexivity. Qed.
 Lemma roots_resolved : ids_of root_names = Some root_ids /\ True
   /\ ids_of must_be_explicit = Some must_ids /\ ids_of global_by_design = Some global_ids.
 Proof. repeat split; vm_compute; reflexivity. Qed.
+Lemma repaired_resolved : ids_of repaired = Some repaired_ids.
+Proof. vm_compute; reflexivity. Qed.
 
 Lemma post_full : postfix dir_full tbl fp_full = true. Proof. vm_compute. reflexivity. Qed.
 Lemma post_excl : postfix dir_excl tbl fp_excl = true. Proof. vm_compute. reflexivity. Qed.
@@ -121,7 +123,20 @@ Definition via_callback : list String.string :=
    "opt.algo.RealGeneticAlgorithm.RealGeneticAlgorithm.minimize"%string;
    "opt.algo.NSGA2BinaryGeneticAlgorithm.NSGA2BinaryGeneticAlgorithm.minimize"%string;
    "opt.algo.NSGA2IntegerGeneticAlgorithm.NSGA2IntegerGeneticAlgorithm.minimize"%string;
-   "opt.algo.NSGA2RealGeneticAlgorithm.NSGA2RealGeneticAlgorithm.minimize"%string].
+   "opt.algo.NSGA2RealGeneticAlgorithm.NSGA2RealGeneticAlgorithm.minimize"%string;
+   "opt.algo.SubsetGeneticAlgorithm.SubsetGeneticAlgorithm.minimize"%string;
+   "opt.algo.NSGA2SubsetGeneticAlgorithm.NSGA2SubsetGeneticAlgorithm.minimize"%string;
+   "opt.algo.NSGA3SubsetGeneticAlgorithm.NSGA3SubsetGeneticAlgorithm.minimize"%string;
+   (* selection protocols: select() solves an arbitrary problem object with an arbitrary optimiser *)
+   "breed.prot.sel.BinaryMateSelectionProtocol.BinaryMateSelectionProtocol.select"%string;
+   "breed.prot.sel.BinarySelectionProtocol.BinarySelectionProtocol.select"%string;
+   "breed.prot.sel.IntegerMateSelectionProtocol.IntegerMateSelectionProtocol.select"%string;
+   "breed.prot.sel.IntegerSelectionProtocol.IntegerSelectionProtocol.select"%string;
+   "breed.prot.sel.RealMateSelectionProtocol.RealMateSelectionProtocol.select"%string;
+   "breed.prot.sel.RealSelectionProtocol.RealSelectionProtocol.select"%string;
+   "breed.prot.sel.SubsetMateSelectionProtocol.SubsetMateSelectionProtocol.select"%string;
+   "breed.prot.sel.SubsetSelectionProtocol.SubsetSelectionProtocol.select"%string;
+   "breed.prot.sel.UnconstrainedGeneralized1NormGenomicSelection.Generalized1NormGenomicSelection.select"%string].
 Definition via_callback_ids : list positive := Eval vm_compute in opt_list (ids_of via_callback).
 
 Lemma must_check : forallb (fun p => (if pmem p via_callback_ids then sub (fget fp_excl p) EXPLICIT_OK else sub (fget fp_full p) EXPLICIT_OK)
@@ -226,6 +241,43 @@ Proof.
   intros k Hk. pose proof roots_real as H. rewrite forallb_forall in H. specialize (H _ Hk).
   now apply negb_true_iff in H.
 Qed.
+
+(** ** the repaired findings: at every formerly failing site the body references explicit sources only (in particular it no
+    longer passes rng = None on, no longer names numpy.random / random), it does reference a generator, and it is not on the
+    exception list — full strength, no guard *)
+Lemma repaired_check : forallb (fun p => sub (direct tbl p) EXPLICIT_OK && negb (direct tbl p =? 0) && negb (pmem p root_ids)
+                                          && sub (fget fp_excl p) EXPLICIT_OK) repaired_ids = true.
+Proof. vm_compute. reflexivity. Qed.
+
+Lemma repaired_nonempty : (25 <= length repaired_ids)%nat.
+Proof. vm_compute. lia. Qed.
+
+Theorem repaired_sites_explicit : forall nm p, In nm repaired -> id_of nm = Some p ->
+  sub (direct tbl p) EXPLICIT_OK = true /\ direct tbl p <> 0 /\ ~ In p root_ids /\
+  forall k, reach tbl p k -> In k root_ids \/ sub (direct tbl k) EXPLICIT_OK = true.
+Proof.
+  intros nm p Hin Hid.
+  pose proof (ids_of_In _ _ repaired_resolved _ _ Hin Hid) as Hp.
+  pose proof repaired_check as Hall. rewrite forallb_forall in Hall. specialize (Hall _ Hp).
+  apply andb_prop in Hall as [Hall H4]. apply andb_prop in Hall as [Hall H3]. apply andb_prop in Hall as [H1 H2].
+  split; [exact H1|]. split.
+  - intro E. rewrite E in H2. discriminate.
+  - split.
+    + intro Hr. apply pmem_In in Hr. rewrite Hr in H3. discriminate.
+    + intros k Hr.
+      pose proof (postfix_sound dir_excl tbl fp_excl post_excl p k Hr) as Hs.
+      destruct (pmem k root_ids) eqn:Em; [left; now apply pmem_In|]. right.
+      rewrite direct_find. destruct (PositiveMap.find k tbl) as [[d s]|]; [|apply sub_zero].
+      unfold dir_excl in Hs. rewrite Em in Hs. eapply sub_trans; eauto.
+Qed.
+
+(** regression witnesses about the FORMER code: the masks the repaired sites had are not explicit-only, and with an explicit
+    generator they let a global stream be touched *)
+Theorem old_masks_refuted :
+  sub old_selcfg_mask EXPLICIT_OK = false /\ may_touch_np true old_selcfg_mask = true /\
+  sub old_global_draw_mask EXPLICIT_OK = false /\ may_touch_np true old_global_draw_mask = true /\
+  sub old_setga_mask EXPLICIT_OK = false /\ may_touch_py old_setga_mask = true.
+Proof. repeat split. Qed.
 
 (** the table does distinguish a seeded from an unseeded pymoo call: the pre-repair mask of a minimize() method (OS bit set)
     is not explicit-only and would violate [os_check] — documentation of the repaired finding C08-ga-os-entropy *)
@@ -400,6 +452,31 @@ Theorem os_entropy_not_reproducible : exists (c : call Z Z) (w1 w2 : world Z) (s
 Proof.
   exists os_call, (fun _ => 0%Z), (fun l => match l with LOs => 1%Z | _ => 0%Z end), 7%Z.
   split; [exact os_call_respects|]. cbn. intro H. discriminate.
+Qed.
+
+(** the FORMER behaviour of the repaired components (explicit generator AND the global numpy stream) respects its footprint
+    {generator i, numpy} but is NOT isolated: it advances the global stream, and its output depends on it *)
+Lemma old_global_draw_respects {G O} (next : G -> G) (pairO : G -> G -> O) i : respects (old_global_draw_call next pairO i).
+Proof.
+  split.
+  - intros w l Hl. cbn in *.
+    assert (H1 : LEx i <> l) by (intro E; apply Hl; now left).
+    assert (H2 : LNp <> l) by (intro E; apply Hl; right; now left).
+    rewrite !upd_other by assumption. reflexivity.
+  - intros w1 w2 Hag.
+    assert (E1 : w1 (LEx i) = w2 (LEx i)) by (apply Hag; now left).
+    assert (E2 : w1 LNp = w2 LNp) by (apply Hag; right; now left).
+    cbn. rewrite E1, E2. split; [reflexivity|].
+    intros l [<-|[<-|[]]].
+    + rewrite (upd_other _ (upd w1 (LEx i) _) LNp (LEx i)), (upd_other _ (upd w2 (LEx i) _) LNp (LEx i)) by discriminate.
+      now rewrite !upd_same.
+    + now rewrite !upd_same.
+Qed.
+Theorem old_global_draw_not_isolated : exists (c : call Z Z) (i : nat), respects c /\ ~ isolated c i.
+Proof.
+  exists (old_global_draw_call (fun g => g + 1)%Z (fun a b => a + 2 * b)%Z 0), 0%nat.
+  split; [apply old_global_draw_respects|].
+  intro H. destruct (H (fun _ => 0%Z)) as (_ & Hnp & _). cbn in Hnp. discriminate.
 Qed.
 
 (** ** the concrete seeding interface is an instance *)
